@@ -4,6 +4,9 @@ From InfOCFProps Require Import Ex.
 From InfOCF Require Import PyLib TieCons TieZ TieP TieTop.
 From InfOCFGen Require Import SrcCond SrcCons SrcInf SrcZ SrcP.
 From Coq Require Import ZArith.
+From InfOCF Require Import PyLib TieZ TieW TieWTop.
+From InfOCFGen Require Import SrcW.
+From Coq Require Import ZArith.
 
 (* extended p-entailment (Pinf: extended partition of D + (not B|A), then "no world spares the last layer and satisfies A"):
    the dictionary keys of the base are distinct *)
@@ -54,6 +57,13 @@ Theorem C07_source_p_entailment_extended : forall n (d:dict Z cond) q u Pc st, d
   = Return (ext_spec (worlds n) (acP Pc) q (p_def (fresh (dict_values d)))).
 Proof. exact src_p_ext_spec. Qed.
 Print Assumptions C07_source_p_entailment_extended.
+
+Theorem C07_source_system_w_extended : forall n D, NoDup (map kz D) -> forall q P vq0 fq0, D <> [] -> part_ext n D = Some P ->
+  exists lay m b, P = acP (Pc D lay m) /\
+    py_SystemW_inference n (S m) (Pk D lay m) (nf_of D) (fd_of D) vq0 fq0 (bb_of D) tt q true tt = Return b /\
+    (trivial n q || b) = ext_spec (worlds n) P q w_spec.
+Proof. exact src_w_ext_spec. Qed.
+Print Assumptions C07_source_system_w_extended.
 
 Example weak_birds : part_strict 4 birds_weak = None
   /\ map (fun s => map (infer 4 s true birds_weak) [q_fp; q_nfp; q_wp]) [SysP; SysZ; SysW; SysLex]
